@@ -80,6 +80,14 @@ def _compute(what, o, p, t0):
     elif what == "Write":
         file_interface.write_tum_trajectory_file(io.StringIO(), o)
         file_interface.write_kitti_poses_file(io.StringIO(), o)
+        try:
+            import tempfile
+            from rosbags.rosbag1 import Writer
+            with tempfile.TemporaryDirectory(dir=core.workdir()) as td:
+                with Writer(td + "/w.bag") as wr:
+                    file_interface.write_bag_trajectory(wr, o, "/pose")             # no frame id given, none in the meta
+        except ImportError:
+            pass
     elif what == "Sync":
         from evo.core import sync
         sync.matching_time_indices(o.timestamps, p.timestamps, 0.5, 0.25)
@@ -124,6 +132,7 @@ def execute(job):
     touch = job[4] if len(job) > 4 else "none"          # cache history: which views of the target are read before each mutating step
     objs = {1: _initial(built, t0)}
     extras = []
+    extras_changed = []
     ev = []
     for e in hist:
         args = e["args"]
@@ -157,7 +166,13 @@ def execute(job):
             elif name == "Merge":
                 created = [trajectory.merge([objs[a] for a in args])]
             elif name == "Transform":
-                tgt.transform(geom.se3(geom.o24_matrix((2, -1, 3)), [1.0, -2.0, 3.0]))
+                T = geom.se3(geom.o24_matrix((2, -1, 3)), [1.0, -2.0, 3.0])
+                if n % 2:
+                    T[:3, :3] *= 2.0                    # a Sim(3) matrix
+                Tb = T.tobytes()
+                tgt.transform(T)
+                if T.tobytes() != Tb:                   # the matrix handed in is an argument like any other
+                    extras_changed.append("matrix")
             elif name == "Scale":
                 tgt.scale(2.0)
             elif name == "Reduce":
@@ -176,8 +191,12 @@ def execute(job):
             objs[cid] = c
         after = {k: _snap(t) for k, t in objs.items() if k in before}
         after.update({-(i + 1): _snap(t) for i, t in enumerate(extras) if -(i + 1) in before})
+        changed = _changed(before, after)
+        if extras_changed:
+            changed = sorted(set(changed) | {-99})      # -99: the transformation matrix passed to transform()
+            extras_changed.clear()
         ev.append({"name": name, "kind": e["kind"], "target": e["target"], "args": list(args),
-                   "created": list(e["created"][:len(created)]), "changed": _changed(before, after)})
+                   "created": list(e["created"][:len(created)]), "changed": changed})
         if len(created) < len(e["created"]):
             break
     return {"id": "a%d" % n, "built": built, "ev": ev}
@@ -206,6 +225,13 @@ def result_traces(seed):
                     "arrays": b"".join(np.asarray(v).tobytes() for _, v in sorted(r.np_arrays.items())),
                     "traj": repr([sorted(geom.snapshot(t).items(), key=lambda kv: kv[0]) for _, t in sorted(r.trajectories.items())])}
         ev = []
+        from evo.tools import pandas_bridge
+        before = [snap(r) for r in rs]
+        for r in rs:
+            pandas_bridge.result_to_df(r)
+        after = [snap(r) for r in rs]
+        ev.append({"name": "ResultToDataFrame", "kind": "compute", "target": 0, "args": [1, 2], "created": [],
+                   "changed": [k + 1 for k in range(2) if before[k] != after[k]]})
         before = [snap(r) for r in rs]
         merged = result.merge_results(rs)
         after = [snap(r) for r in rs]
